@@ -716,6 +716,7 @@ impl Sup {
             "coverage": {
                 "evaluations": self.merged_evals,
                 "distinct_nontrivial": self.nontrivial.len(),
+                "distinct_nontrivial_note": format!("union over shards of 64-bit hashes of non-trivial cases; each shard records at most {} hashes, so the number is a lower bound", NONTRIVIAL_CAP),
                 "rule": self.def.rule,
                 "samples": samples,
                 "exhaustive": all_enum,
@@ -733,7 +734,9 @@ impl Sup {
             "wall_s": wall,
             "violations": self.violations.len(),
         });
-        let evdir = self.a.verif.join("evidence");
+        // sensitivity experiments (tools/mutate.sh) send their evidence elsewhere so that the committed files
+        // always describe the unchanged tree
+        let evdir = std::env::var("VERIF_EVIDENCE_DIR").map(PathBuf::from).unwrap_or_else(|_| self.a.verif.join("evidence"));
         let _ = std::fs::create_dir_all(&evdir);
         let evp = evdir.join(format!("{}.json", self.a.prop));
         if let Err(e) = std::fs::write(&evp, serde_json::to_string_pretty(&ev).unwrap()) {
